@@ -23,7 +23,7 @@ TECHNIQUE = 'reference dataflow evaluator + write-protection/digest purity monit
 RULE = ('graphs from vlib.scalegen.gen_graph; non-trivial = graph with >=2 scales or properties on a non-channel level; distinct = (scale '
         'kinds + wiring, raw type, level)')
 ASSUMPTIONS = ['int raw data is converted to float64 before Linear/Polynomial/Table evaluation (NumPy promotion)']
-REQUIRED = ['purity_cases', 'graphs', 'scaled_compared', 'windows_compared', 'lazy_compared', 'purity_checks', 'level:channel', 'level:group', 'level:root',
+REQUIRED = ['daqmx_graphs_without_count', 'purity_cases', 'graphs', 'scaled_compared', 'windows_compared', 'lazy_compared', 'purity_checks', 'level:channel', 'level:group', 'level:root',
             'status_scaled_cases', 'daqmx_graphs', 'precedence_cases', 'no_count_property', 'parents:first', 'parents:last', 'parents:later']
 N = {'quick': 10000, 'thorough': 1000000}
 
@@ -300,7 +300,11 @@ def daqmx_case(case, ctx):
                         s[key] = shift(s.get(key))
                 g2.append(s)
             plans[ch['name']] = (k, g2)
-            props = [('NI_Number_Of_Scales', 7, lambda e, k=k, g2=g2: struct.pack(e + 'I', k + len(g2)))]
+            props = []
+            if rng.random() < 0.6:
+                props.append(('NI_Number_Of_Scales', 7, lambda e, k=k, g2=g2: struct.pack(e + 'I', k + len(g2))))
+            else:
+                ctx.count('daqmx_graphs_without_count')
             for i, s in enumerate(g2):
                 for name, pt, val in SG.scale_props(k + i, s):
                     if pt == 'str':
